@@ -6,5 +6,5 @@ export CARGO_NET_OFFLINE=true
 [ -f harness/Cargo.lock ] || cp /repo/Cargo.lock harness/Cargo.lock
 (cd harness && cargo build --offline)
 (cd harness && cargo build --offline --manifest-path /repo/jaq/Cargo.toml --target-dir "$PWD/target-cli")
-(cd lean && lake build JaqVerif Driver jaqmodel)
+(cd lean && lake build JaqVerif jaqmodel)
 echo "setup ok"
